@@ -80,8 +80,10 @@ class Universe:
         def coef(c):
             return N("Coefficient", True, _count=c, rep=f"Coefficient(V, {c})")
 
-        def const(c):
-            return N("Constant", True, _count=c, rep=f"Constant(Mesh(<coords>, 9), (), {c})")
+        def const(c, m=9, shape=()):
+            o = N("Constant", True, _count=c, rep=f"Constant(Mesh(<coords>, {m}), {shape}, {c})")
+            o.attrs.update(_ufl_domain=mesh[m], _ufl_shape=shape)
+            return o
 
         def arg(n, p=None):
             return N("Argument", True, _number=n, _part=p, rep=f"Argument(V, {n}, {p})")
@@ -102,6 +104,12 @@ class Universe:
 
         f1, f2, f3, f9, f10 = (add(f"f{c}", coef(c)) for c in (1, 2, 3, 9, 10))
         c9, c10 = add("c9", const(9)), add("c10", const(10))
+        # equal terminals that are distinct objects (rebuilt with the same data) must tie; terminals that share a count
+        # but differ in something else must not
+        add("f3'", coef(3))
+        add("c9'", const(9))
+        add("c9 (shape (2,), same count)", const(9, shape=(2,)))
+        add("c9 (mesh 10, same count)", const(9, m=10))
         if self.parts:
             # arguments in a MixedFunctionSpace: (number, part)
             v0, v1 = add("v0.0", arg(0, 0)), add("v1.0", arg(1, 0))
@@ -111,6 +119,8 @@ class Universe:
         else:
             v0, v1 = add("v0", arg(0)), add("v1", arg(1))
         x9, x10 = add("x9", geo("SpatialCoordinate", 9)), add("x10", geo("SpatialCoordinate", 10))
+        add("x9'", geo("SpatialCoordinate", 9))
+        add("v1'", arg(1, 0) if self.parts else arg(1))
         n9 = add("n9", geo("FacetNormal", 9))
         one, two = add("1", lit(1)), add("2", lit(2))
         self.operand_start = 0
